@@ -43,6 +43,7 @@ var commonAssumptions = []string{
 type mutantResult struct {
 	Name     string   `json:"name"`
 	Expect   string   `json:"expect"`
+	Benign   bool     `json:"benign,omitempty"` // a behaviour-preserving edit: the checks must stay silent
 	Applied  bool     `json:"applied"`
 	Detected bool     `json:"detected"`
 	Fired    []string `json:"fired,omitempty"`
@@ -188,8 +189,11 @@ func main() {
 		}
 		res.Mutants = runMutants(def.ID, *repo, *verif, baseFailed)
 		for _, m := range res.Mutants {
-			if m.Applied && !m.Detected {
+			if m.Applied && !m.Benign && !m.Detected {
 				selfTestBroken = true
+			}
+			if m.Applied && m.Benign && len(m.Fired) > 0 {
+				selfTestBroken = true // a false alarm on a behaviour-preserving edit
 			}
 		}
 	}
@@ -223,6 +227,10 @@ func main() {
 	fns := sortedKeys(res.Fns)
 	fmt.Printf("ANALYSED packages=%d functions=%d obligations=%d platforms=%v\n", res.Packages, len(fns), len(res.Obs), res.Platforms)
 	for _, m := range res.Mutants {
+		if m.Benign {
+			fmt.Printf("BENIGN %s applied=%v silent=%v fired=%v %s\n", m.Name, m.Applied, len(m.Fired) == 0, m.Fired, m.Note)
+			continue
+		}
 		fmt.Printf("MUTANT %s expect=%s applied=%v detected=%v %s\n", m.Name, m.Expect, m.Applied, m.Detected, m.Note)
 	}
 
@@ -260,7 +268,7 @@ func main() {
 		os.Exit(1)
 	}
 	if selfTestBroken {
-		fmt.Println("SELFTEST-BROKEN: a catalogued mutant applied but was not detected (checker defect, not a property violation)")
+		fmt.Println("SELFTEST-BROKEN: a catalogued mutant applied but was not detected, or a behaviour-preserving edit raised an alarm (checker defect, not a property violation)")
 		os.Exit(2)
 	}
 	fmt.Printf("OK property=%s tier=%s obligations=%d wall=%.1fs\n", def.ID, *tier, len(res.Obs), time.Since(start).Seconds())
@@ -275,6 +283,7 @@ type mutantSpec struct {
 	Old    string `json:"old"`
 	New    string `json:"new"`
 	Why    string `json:"why,omitempty"`
+	Benign bool   `json:"benign,omitempty"`
 	Edits  []struct {
 		File string `json:"file"`
 		Old  string `json:"old"`
@@ -312,7 +321,7 @@ func runMutants(prop, repo, verif string, baseFailed map[string]bool) []mutantRe
 }
 
 func runMutant(self, prop, repo string, sp mutantSpec, baseFailed map[string]bool) mutantResult {
-	m := mutantResult{Name: sp.Name, Expect: sp.Expect}
+	m := mutantResult{Name: sp.Name, Expect: sp.Expect, Benign: sp.Benign}
 	dir, err := os.MkdirTemp("", "verif-mut-")
 	if err != nil {
 		m.Note = err.Error()
